@@ -30,7 +30,9 @@ Methods(G) ==
   UNION {LET ix == Index(G, G.rules[ri], 1)[1] IN
          {[name |-> "on" \o G.idents[ri] \o ToString(p[2]), params |-> G.nodes[p[1]].args] : p \in {q \in ix : G.nodes[q[1]].blk # 0}}
          : ri \in 1..Len(G.rules)}
-NBlocks(G) == Cardinality({e \in 1..Len(G.nodes) : G.nodes[e].blk # 0})
+(* the code blocks that are part of some rule (a node table may contain unreachable nodes) *)
+NBlocks(G) == Cardinality(UNION {LET ix == Index(G, G.rules[ri], 1)[1] IN {<<ri, q[1]>> : q \in {p \in ix : G.nodes[p[1]].blk # 0}}
+                                 : ri \in 1..Len(G.rules)})
 NamesInjective(G) == Cardinality({m.name : m \in Methods(G)}) = NBlocks(G)
 
 ObsMethods(o) == {[name |-> o.methods[i][1], params |-> o.methods[i][2]] : i \in 1..Len(o.methods)}
